@@ -15,7 +15,12 @@ func GetListener(index uint, family, laddr string) (net.Listener, error) {
 	if env := simhook.CurProcEnv(); env != nil {
 		return env.Listener(index)
 	}
-	return nil, errors.New("simactivation: not inside a simulated process")
+	// no socket was inherited: listen on the configured address (on the
+	// simulated network)
+	if hook := simhook.NetListen(); hook != nil {
+		return hook(family, laddr)
+	}
+	return nil, errors.New("simactivation: no simulated network to listen on")
 }
 
 func DaemonReady() error {
